@@ -124,6 +124,8 @@ func (f c11File) sourceWith(tr func(ref string) string) string {
 		case "setpv":
 			// the includer binds the very name a later include passes as a pair: the pair wins
 			sb.WriteString(`{% set pv = "` + it.Text + `" %}`)
+		case "noise":
+			sb.WriteString(c11Noise[it.Text][0])
 		case "include", "lazy", "lazyrel":
 			switch it.Kind {
 			case "include":
@@ -164,6 +166,22 @@ func (f c11File) sourceWith(tr func(ref string) string) string {
 	}
 	return sb.String()
 }
+
+// tags that stand before a reference: source and what they render (constant, whatever their state)
+var c11Noise = map[string][2]string{
+	"cycle":      {`{% cycle "cy" "cy" %}`, "cy"},
+	"cycle-as":   {`{% cycle "cy" "cy" as cyv silent %}`, ""},
+	"for":        {`{% for nz in "ab" %}{% cycle "k" "k" %}{% endfor %}`, "kk"},
+	"with":       {`{% with nw=1 %}{% endwith %}`, ""},
+	"firstof":    {`{% firstof "" "fo" %}`, "fo"},
+	"widthratio": {`{% widthratio 1 2 100 as wr %}`, ""},
+	"macro":      {`{% macro nm() %}m{% endmacro %}{{ nm() }}`, "m"},
+	"filter":     {`{% filter upper %}x{% endfilter %}`, "X"},
+	"ifchanged":  {`{% ifchanged "c" %}{% endifchanged %}`, ""},
+	"spaceless":  {`{% spaceless %}<a> <b>{% endspaceless %}`, "<a><b>"},
+}
+
+var c11NoiseKeys = []string{"cycle", "cycle-as", "for", "with", "firstof", "widthratio", "macro", "filter", "ifchanged", "spaceless"}
 
 // ---- reference composition ---------------------------------------------------------
 
@@ -256,6 +274,8 @@ func (r *c11Ref) items(name string, items []c11Item, env *c11Env, sb *strings.Bu
 			env.sv = it.Text
 		case "setpv":
 			env.pv = it.Text
+		case "noise":
+			sb.WriteString(c11Noise[it.Text][1])
 		case "blockhere":
 			if childBlock != nil {
 				if err := childBlock(env, sb); err != nil {
@@ -634,6 +654,10 @@ func genC11(t *rapid.T) *c11Case {
 						f.Items = append(f.Items, c11Item{Kind: "set", Text: fmt.Sprintf("S%d", marker)})
 					case 2:
 						f.Items = append(f.Items, c11Item{Kind: "setpv", Text: fmt.Sprintf("SP%d", marker)})
+					case 3:
+						// other tags executed before the reference: whatever they bind for themselves
+						// is no business of the template referred to
+						f.Items = append(f.Items, c11Item{Kind: "noise", Text: pick(t, "noise", c11NoiseKeys)})
 					}
 					// target: a later file, or (sometimes) a missing name
 					var target string
@@ -826,7 +850,7 @@ func genC11(t *rapid.T) *c11Case {
 
 var _ = register(&propSpec{
 	ID:    "C11.compose",
-	Rule:  "virtual file trees (10 names with equal base names in different directories up to 3 deep), 1-3 loaders serving overlapping names with different contents, acyclic reference graphs over include (static / lazy with rooted names / lazy with names relative to the referring file, with pair, only, if_exists), extends (+ block override), import (+ call), ssi plain (content never parsed) and ssi parsed; names written rooted, relative (incl. ..) and rooted with a detour; a reader that breaks half way in the first loader that has a name (must be an error, not a reason to ask the next loader); references to names no loader serves (by every tag; also from inside the target of an if_exists include, which if_exists does not forgive); includer variables (context, set, with pair, a set of the very name a pair passes) probed in every file. The worker's working directory holds canary files at the same relative paths, and two of the virtual names also exist as absolute paths of the real file system (canary content); none of them is served by a loader. Oracle: reference composition (first loader having a name wins; relative names resolve against the referring file; missing => error, or nothing with if_exists; only hides includer variables), the loaders' Get logs contain no name outside the referenced set and everything used was fetched, no canary text ever appears; then the content of every file changes and a fresh FromFile of the root must show the new content by every route (literal and computed names alike). Non-trivial: loaders disagree on a name, or a relative reference crosses directories, or only / if_exists present.",
+	Rule:  "virtual file trees (10 names with equal base names in different directories up to 3 deep), 1-3 loaders serving overlapping names with different contents, acyclic reference graphs over include (static / lazy with rooted names / lazy with names relative to the referring file, with pair, only, if_exists), extends (+ block override), import (+ call), ssi plain (content never parsed) and ssi parsed; names written rooted, relative (incl. ..) and rooted with a detour; a reader that breaks half way in the first loader that has a name (must be an error, not a reason to ask the next loader); references to names no loader serves (by every tag; also from inside the target of an if_exists include, which if_exists does not forgive); includer variables (context, set, with pair, a set of the very name a pair passes) probed in every file; other tags executed before a reference (anonymous and named cycle, for, with, firstof, widthratio as, macro, filter, ifchanged, spaceless - what they bind for themselves is no business of the template referred to). The worker's working directory holds canary files at the same relative paths, and two of the virtual names also exist as absolute paths of the real file system (canary content); none of them is served by a loader. Oracle: reference composition (first loader having a name wins; relative names resolve against the referring file; missing => error, or nothing with if_exists; only hides includer variables), the loaders' Get logs contain no name outside the referenced set and everything used was fetched, no canary text ever appears; then the content of every file changes and a fresh FromFile of the root must show the new content by every route (literal and computed names alike). Non-trivial: loaders disagree on a name, or a relative reference crosses directories, or only / if_exists present.",
 	Gen:   func(t *rapid.T) any { return genC11(t) },
 	New:   func() any { return &c11Case{} },
 	Check: checkC11,
